@@ -253,7 +253,8 @@ impl TerminalRenderer {
         }
 
         self.marks.fill(CellMark::Damaged);
-        self.front.fill(Cell::default());
+        // NOTE: front buffer is not touched, it might already contain the frame that is
+        //       about to be rendered (frames are dropped after the handler has drawn)
         self.back.fill(Cell::default());
 
         Ok(())
